@@ -33,7 +33,7 @@ def gen_build(tier, seed, todfs=False):
     r = rng(seed, "defs" if todfs else "build")
     ncases = (40 if todfs else 120) if tier == "quick" else (600 if todfs else 2500)
     lines = []
-    stats = {"cases": 0, "systems": 0, "route_direct": 0, "route_csv": 0, "route_xlsx": 0, "bad_on_purpose": 0,
+    stats = {"cases": 0, "systems": 0, "route_direct": 0, "route_csv": 0, "route_xlsx": 0, "route_reader": 0, "bad_on_purpose": 0,
              "flows": 0, "stocks": 0, "params": 0, "process_lists": 0, "dimfiles": 0, "dimfile_bad": 0}
     for n in range(ncases):
         kind = r.random() if not todfs else 0.0
@@ -47,7 +47,7 @@ def gen_build(tier, seed, todfs=False):
             r.shuffle(letters)
             for k, l in enumerate(letters):
                 lines.append(dim_line(k, l))
-            route = r.choices(["direct", "csv", "xlsx"], [0.6, 0.25, 0.15])[0] if tier != "quick" or n % 4 else "direct"
+            route = r.choices(["direct", "csv", "xlsx", "reader"], [0.5, 0.22, 0.13, 0.15])[0] if tier != "quick" or n % 4 else "direct"
             if todfs:
                 route = "direct"
             stats["route_" + route] += 1
@@ -104,7 +104,7 @@ def gen_build(tier, seed, todfs=False):
                 stats["flows"] += 1
             nstocks = r.randint(0, 3)
             for i in range(nstocks):
-                cls = r.choice(["fds", "idsm", "sdsm"])
+                cls = r.choice(["fds", "idsm", "sdsm", "sdsm", "sdsmsub", "idsmsub"])
                 tl = "t" if ("h" not in letters or r.random() < 0.8) else "h"
                 if badkind == "time_letter_missing" and i == 0:
                     tl = "q"
@@ -115,7 +115,7 @@ def gen_build(tier, seed, todfs=False):
                     ls = ls[1:] + ls[:1] if r.random() < 0.7 else ls[1:]
                 lm = "none" if cls == "fds" else r.choice(LMS)
                 if badkind == "lm_missing" and i == 0:
-                    cls, lm = r.choice(["idsm", "sdsm"]), "none"
+                    cls, lm = r.choice(["idsm", "sdsm", "sdsmsub"]), "none"
                 if badkind == "lm_unused" and i == 0:
                     cls, lm = "fds", r.choice(LMS)
                 solver = r.choice(["manual", "lapack", "manual"])
